@@ -34,6 +34,14 @@ theorem fallback_eq (minId maxId : Nat) :
       = (fallback minId maxId : Nat) := by
   simp only [Gen.RowHistory.fallbackCond, Gen.RowHistory.fallbackValue, fallback]
   by_cases h : maxId < minId <;> simp [h]
+/-- `save_row` keeps the maximum (fix 9826fcb): `max(row_id, table_counters.get(tablename) or 0)` is
+    `saveTableCtr`, read from `table_counters[tablename]` -/
+theorem saveTableCtr_eq (i cur : Nat) :
+    Gen.RowHistory.saveTableCtr i cur = (saveTableCtr i cur : Nat) := by
+  simp only [Gen.RowHistory.saveTableCtr, saveTableCtr]
+  omega
+theorem saveTableCtr_source :
+    Gen.RowHistory.saveTableCtrSrc = ["self.table_counters", "tablename"] := rfl
 /-- `unique_random`: `b += 1` (top-inclusive → top-exclusive) is the `b + 1` of `uniqueDraw` -/
 theorem uniqueTop_eq (b : Int) : Gen.RowHistory.uniqueTop b = b + 1 := rfl
 
@@ -71,7 +79,7 @@ theorem rowHistory_resultReturn : Gen.RowHistory.resultReturn =
   ["return LazyLoadedObjectReference(tablename, row_id, tablename)"] := rfl
 /-- `save_row` statements -/
 theorem rowHistory_saveRowBody : Gen.RowHistory.saveRowBody =
-  ["row_id = row['id']", "self.table_counters[tablename] = row_id", "if nickname:\n    nickname_id = self._get_nickname_id(tablename, nickname)\n    self.table_counters[nickname] = nickname_id\nelse:\n    nickname_id = None", "data = self.pickler.dumps(row)", "self.conn.execute(f'INSERT INTO \"{tablename}\" VALUES (?, ?, ?, ?)', (row_id, nickname, nickname_id, data))"] := rfl
+  ["row_id = row['id']", "self.table_counters[tablename] = max(row_id, self.table_counters.get(tablename) or 0)", "if nickname:\n    nickname_id = self._get_nickname_id(tablename, nickname)\n    self.table_counters[nickname] = nickname_id\nelse:\n    nickname_id = None", "data = self.pickler.dumps(row)", "self.conn.execute(f'INSERT INTO \"{tablename}\" VALUES (?, ?, ?, ?)', (row_id, nickname, nickname_id, data))"] := rfl
 /-- `_get_nickname_id` statements -/
 theorem rowHistory_getNicknameIdBody : Gen.RowHistory.getNicknameIdBody =
   ["self.nickname_counters[nickname] += 1", "return self.nickname_counters[nickname]"] := rfl
@@ -116,7 +124,7 @@ theorem historyWiring_rememberRowBody : Gen.HistoryWiring.rememberRowBody =
   ["for fieldname, fieldvalue in row.items():\n    if isinstance(fieldvalue, (ObjectRow, ObjectReference)):\n        self.interpreter.globals.register_intertable_reference(tablename, fieldvalue._tablename, fieldname)", "history_tables = self.interpreter.tables_to_keep_history_for", "should_save: bool = tablename in history_tables or nickname in history_tables or SAVE_EVERYTHING", "if should_save:\n    self.interpreter.row_history.save_row(tablename, nickname, row)"] := rfl
 /-- `resave_objects_from_continuation` statements -/
 theorem historyWiring_resaveBody : Gen.HistoryWiring.resaveBody =
-  ["relevant_objs = [(obj._tablename, nickname, obj) for nickname, obj in globals.persistent_nicknames.items()]", "already_saved = set((obj._id for _, _, obj in relevant_objs))", "relevant_objs.extend(((tablename, None, obj) for tablename, obj in globals.persistent_objects_by_table.items() if obj._id not in already_saved))", "relevant_objs = ((table, nick, obj) for table, nick, obj in relevant_objs if table in tables_to_keep_history_for)", "for tablename, nickname, obj in relevant_objs:\n    self.row_history.save_row(tablename, nickname, obj._values)"] := rfl
+  ["relevant_objs = [(obj._tablename, nickname, obj) for nickname, obj in globals.persistent_nicknames.items()]", "already_saved = set((obj._id for _, _, obj in relevant_objs))", "relevant_objs.extend(((tablename, None, obj) for tablename, obj in globals.persistent_objects_by_table.items() if obj._id not in already_saved))", "relevant_objs = ((table, nick, obj) for table, nick, obj in relevant_objs if table in tables_to_keep_history_for)", "for tablename, nickname, obj in relevant_objs:\n    self.row_history.save_row(tablename, nickname, obj._values)", "self.row_history.reset_locals()"] := rfl
 /-- history-related statements of `Interpreter.__init__`, in order -/
 theorem historyWiring_interpreterInitHistory : Gen.HistoryWiring.interpreterInitHistory =
   ["self.tables_to_keep_history_for = find_tables_to_keep_history_for(parse_result, globals.nicknames_and_tables)", "self.row_history = RowHistory(globals.transients.orig_used_ids, self.tables_to_keep_history_for, self.globals.nicknames_and_tables)", "self.resave_objects_from_continuation(globals, self.tables_to_keep_history_for)"] := rfl
